@@ -397,6 +397,17 @@ def r4_wildcard(ctx):
             atoms += iter_filter_facts(f, f.expr_operand(arg, leaf[0].b, 'T'))
         ok = any(a[0] == 'bool' and a[1][0] == 'call' and a[1][1].endswith('::contains') and a[2] is False for a in atoms)
         ctx.check(ok, 'leaf-skips-wildcards', "entries that still contain '<any>' are not turned into properties", leaf[0].where(), [show_atom(a) for a in atoms][:5])
+        # ... and nothing else is withheld: the only tests on the way to the assignment are "path exhausted", the shape tests of the
+        # document (value is a mapping, key is a string), the loop's own "another entry?" and the wildcard test
+        extra = []
+        for a in atoms:
+            if path_exhausted(a) or a[0] in ('is', 'isnot'):
+                continue
+            if a[0] == 'bool' and a[1][0] == 'call' and a[1][1].endswith('::contains') and a[2] is False:
+                continue
+            extra.append(a)
+        ctx.check(not extra, 'leaf-takes-every-entry', 'with the path exhausted, every entry without a wildcard in its key becomes a property of the module, whatever its value',
+                  leaf[0].where(), [show_atom(a) for a in extra][:4])
 
 
 def r5_compartments_merged(ctx):
